@@ -64,6 +64,15 @@ type c12Arg struct {
 
 var c12Args = []c12Arg{
 	{"nil", nil}, {`"s"`, "s"}, {"1", 1}, {`{"a": 1}`, map[string]interface{}{"a": 1}}, {"[1]", []interface{}{1}}, {"true", true},
+	{"np", (*Person)(nil)}, {"pp", c12Person}, // typed nil pointer and pointer taken from the context
+}
+
+var c12Person = &Person{Name: "ctx"}
+
+var c12TOther = reflect.TypeOf((*PLeaf)(nil))
+
+func init() {
+	c12Fixed = append(c12Fixed, c12Param{"*PLeaf", c12TOther, "plain"})
 }
 
 type c12Record struct {
@@ -251,7 +260,7 @@ func init() {
 			return s
 		},
 		Run:  c12Run,
-		Rule: "signatures built with reflect.FuncOf/MakeFunc (each is a recording helper): 0..2 (3 thorough) fixed parameters over {string,int,interface{},*struct} x tail {none, map[string]interface{}, hctx.Map, plush.HelperContext, hctx.HelperContext, map+context in both typings, ...int, ...string, ...interface{}} x result shapes {(), (T), (T,nil), (T,err), (nil error), (error)}; calls with every argument list of length 0..3 (4 thorough) over {nil, \"s\", 1, hash literal, array literal, true}, each argument wrapped in a logging identity helper, with and without a block. Reference binder: too many / non-assignable => error naming the callee, function not invoked; otherwise invoked exactly once with every supplied value unchanged (nil => zero value of the parameter type, also in the variadic tail), omitted trailing map => non-nil empty map, omitted helper context => context whose HasBlock()/Block() reflect the call's block; argument log duplicate-free, in source order (a prefix when binding fails); first result is the value, non-nil trailing error fails the render. Omitted ordinary parameters are unspecified (either error or zero-fill accepted, supplied positions still checked). Non-trivial: at least one argument or an auto-supplied parameter.",
+		Rule: "signatures built with reflect.FuncOf/MakeFunc (each is a recording helper): 0..2 (3 thorough) fixed parameters over {string,int,interface{},*struct,*other-struct} x tail {none, map[string]interface{}, hctx.Map, plush.HelperContext, hctx.HelperContext, map+context in both typings, ...int, ...string, ...interface{}} x result shapes {(), (T), (T,nil), (T,err), (nil error), (error)}; calls with every argument list of length 0..3 (4 thorough) over {nil, \"s\", 1, hash literal, array literal, true, typed nil pointer and non-nil pointer from the context}, each argument wrapped in a logging identity helper, with and without a block. Reference binder: too many / non-assignable => error naming the callee, function not invoked; otherwise invoked exactly once with every supplied value unchanged (nil => zero value of the parameter type, also in the variadic tail), omitted trailing map => non-nil empty map, omitted helper context => context whose HasBlock()/Block() reflect the call's block; argument log duplicate-free, in source order (a prefix when binding fails); first result is the value, non-nil trailing error fails the render. Omitted ordinary parameters are unspecified (either error or zero-fill accepted, supplied positions still checked). Non-trivial: at least one argument or an auto-supplied parameter.",
 		Bound: func(th bool) string {
 			if th {
 				return "<=3 fixed parameters, <=4 arguments"
@@ -330,6 +339,8 @@ func c12One(t *engine.T, sig string, params []c12Param, variadic reflect.Type, r
 		ctx := plush.NewContext()
 		ctx.Set("helperUnderTest", c12MakeFunc(params, variadic, result, rec))
 		ctx.Set("w", func(i int, v interface{}) interface{} { log = append(log, i); return v })
+		ctx.Set("np", (*Person)(nil))
+		ctx.Set("pp", c12Person)
 		out, err := Render(src, ctx)
 		if f := Totality(out, err); f != nil {
 			return "", f
